@@ -334,9 +334,62 @@ def check_embeddings(rng):
                 A = A_src
 
 
+def bipartite_case(lab, A, mp):
+    """None | text: bipartite_graph_embed(A) must return unitaries U, V and squeezing values r with U tanh(|r|) V^T proportional
+    to A (every valid complex square matrix: symmetric, Hermitian, or neither) and the requested mean photon number"""
+    n = len(A)
+    try:
+        sq, U, Vm = dec.bipartite_graph_embed(A, mean_photon_per_mode=mp)
+    except Exception as e:
+        return f"bipartite_graph_embed on {lab} (n={n}) rejected a valid input: {type(e).__name__}: {e}"
+    M = U @ np.diag(np.tanh(-np.asarray(sq))) @ Vm.T
+    nz = abs(A) > 1e-9
+    ratio = (M[nz] / A[nz]) if nz.any() else np.array([1.0])
+    ok_prop = np.allclose(ratio, ratio.flat[0], atol=1e-6) and abs(M[~nz]).max(initial=0) < 1e-6 and ratio.flat[0].real > 0 and abs(ratio.flat[0].imag) < 1e-6
+    mean = np.sum(np.sinh(sq) ** 2) / n
+    uni = abs(U @ U.conj().T - np.eye(n)).max() < 1e-7 and abs(Vm @ Vm.conj().T - np.eye(n)).max() < 1e-7
+    if not ok_prop or not uni or not np.isfinite(mean) or abs(mean - mp) > 1e-5:
+        return (f"bipartite_graph_embed on {lab} (n={n}, mean photon {mp}): U tanh(r) V^T is a positive multiple of the input: {ok_prop}; "
+                f"U, V unitary: {uni}; mean photon per mode {mean:.5f}")
+    return None
+
+
+def bipartite_families(n, rng):
+    B = rng.randn(n, n) + 1j * rng.randn(n, n)
+    return [("real non-symmetric", rng.randn(n, n)), ("real symmetric", (B + B.T).real), ("complex symmetric", B + B.T), ("complex non-symmetric", B),
+            ("complex Hermitian", B + B.conj().T), ("Hermitian with real diagonal only", np.diag(rng.rand(n) + 0.5) + 1j * (np.triu(np.ones((n, n)), 1) - np.tril(np.ones((n, n)), -1))),
+            ("permutation", np.eye(n)[::-1] + 0j), ("rank one", np.outer(B[0], B[1]))]
+
+
+def check_bipartite(rng):
+    for n in ((2, 3) if tier == "quick" else (2, 3, 4, 5)):
+        for lab, A in bipartite_families(n, rng):
+            for mp in (0.5, 1.3):
+                EVAL[0] += 1
+                msg = bipartite_case(lab, A, mp)
+                if msg:
+                    bad(msg)
+
+
+def replay_bipartite(obligation, I):
+    from native.common import run_replay
+    rng = np.random.RandomState(0)
+
+    def chk(inp):
+        if "a" in inp:
+            a, b, c, d = (float(inp.get(k, 0.5)) for k in "abcd")
+            A = np.array([[a, b + 1j * c], [b - 1j * c, d]])
+            if abs(np.linalg.det(A)) < 1e-9 and abs(A).max() < 1e-9:
+                return None
+            return bipartite_case(f"[[{a}, {b}+{c}j], [{b}-{c}j, {d}]]", A, abs(float(inp.get("mean_photon", 1.0))) or 1.0)
+        return bipartite_case(inp["lab"], inp["A"], 1.0)
+    bat = [dict(lab=lab, A=A) for n in (2, 3) for lab, A in bipartite_families(n, rng)]
+    run_replay(obligation, I, chk, bat)
+
+
 if __name__ == "__main__":
     rng = np.random.RandomState(seed)
-    for f in (check_null_helpers, check_meshes, check_driver_structure, check_takagi, check_williamson_bm, check_embeddings):
+    for f in (check_null_helpers, check_meshes, check_driver_structure, check_takagi, check_williamson_bm, check_embeddings, check_bipartite):
         try:
             f(rng)
         except Exception:
